@@ -15,6 +15,7 @@ STUB_SOURCES = {
     "xdsl.dialects.scf": "xdsl_dialects_scf.py",
     "xdsl.traits": "xdsl_traits.py",
     "xdsl.dialects.utils": "xdsl_dialects_utils.py",
+    "xdsl.dialects.func": "xdsl_dialects_func.py",
     "xdsl.utils.hints": "xdsl_utils_hints.py",
     "xdsl.pattern_rewriter": "xdsl_pattern_rewriter.py",
     "xdsl.rewriter": "xdsl_pattern_rewriter.py",
